@@ -1,10 +1,11 @@
 (* C04 -- Parsing untrusted bytes never panics, aborts or hangs.
    Statements only; the proofs are in Proofs/Safe*Proofs.v.  [bytes] is [list byte]: "forall bs" is every byte string. *)
 From LV Require Import Base.Bytes Model.Utf Model.OneByte Model.RangeMap Model.CMap Model.CMapParser Gen.Tables Gen.ObjStmC
-     Model.Obj Model.Parser Model.Xref Model.Loader Model.LoaderExt Model.Safe Model.SafeFilt Model.SafeText Model.SafeContent
+     Model.Obj Model.Parser Model.Xref Model.Loader Model.LoaderExt Model.LoaderEnc Model.Safe Model.SafeFilt Model.SafeText Model.SafeContent
      Model.SafeXref Model.SafeObjStm
      Proofs.SafeFiltProofs Proofs.SafeTextProofs Proofs.SafeContentProofs Proofs.SafeXrefProofs
      Proofs.SafeParserFuel Proofs.SafeSearchProofs Proofs.SafeObjStmProofs Proofs.SafeLoadProofs.
+From LV Require Proofs.LoaderEncProofs.
 Local Open Scope N_scope.
 
 (* ---------------- Stream::decode_ascii85 ---------------- *)
@@ -225,6 +226,37 @@ Proof. intros d c bs. apply (load_ext_safe d c bs). Qed.
 Theorem C04_load_terminates_partial : forall decompress can_decompress bs, load_ext decompress can_decompress bs <> LOut.
 Proof. intros d c bs. apply (load_ext_safe d c bs). Qed.
 
+(* The same with the Encrypt branch (c01's Model/LoaderEnc.v, round 5): Reader::read on EVERY file.  With Encrypt in the
+   trailer the objects are read as for any file (object streams stay closed), then the document goes to
+   `if document.authenticate_password("").is_ok() { document.decrypt("")? }`, the parameter [after].  Item (1) of
+   _partial above is gone: for every byte string the reader itself contributes neither a panic nor an exhausted fuel;
+   [load_enc after] answers LPanic / LOut only if [after] does.  What stays outside: the decrypt attempt itself
+   (Model/LoaderCrypt.v instantiates it with c05's handler, whose only panic site, the assert of Rc4::new, is argued
+   unreachable from file bytes in notes/C04.md and exercised by the load-encrypt family); (2) and (3) as above. *)
+Theorem C04_load_enc_no_panic_partial :
+  forall decompress can_decompress (after : doc -> xtype -> lres),
+    (forall d t, after d t <> LPanic /\ after d t <> LOut) ->
+    forall bs, load_enc decompress can_decompress after bs <> LPanic.
+Proof. intros dc cd after Ha bs. apply (load_enc_safe dc cd after Ha bs). Qed.
+Theorem C04_load_enc_terminates_partial :
+  forall decompress can_decompress (after : doc -> xtype -> lres),
+    (forall d t, after d t <> LPanic /\ after d t <> LOut) ->
+    forall bs, load_enc decompress can_decompress after bs <> LOut.
+Proof. intros dc cd after Ha bs. apply (load_enc_safe dc cd after Ha bs). Qed.
+(* in general (any result type of the decrypt attempt): the load answers one of the reader's own results, which is
+   neither a panic nor out-of-fuel, or exactly what the decrypt attempt answers for the document that was read *)
+Theorem C04_load_enc_answers :
+  forall decompress can_decompress (R : Type) (ret : lres -> R) (after : xmap -> doc -> xtype -> R) bs,
+    (exists r, load_encx decompress can_decompress R ret after bs = ret r /\ r <> LPanic /\ r <> LOut) \/
+    (exists x d t, load_encx decompress can_decompress R ret after bs = after x d t).
+Proof. exact load_encx_answers. Qed.
+(* a file without Encrypt: the decrypt attempt is not consulted *)
+Theorem C04_load_enc_is_load_ext :
+  forall decompress can_decompress (after : doc -> xtype -> lres) bs,
+    file_encrypted decompress can_decompress bs = false ->
+    load_enc decompress can_decompress after bs = load_ext decompress can_decompress bs.
+Proof. intros dc cd after bs H. apply (Proofs.LoaderEncProofs.load_enc_agrees dc cd lres (fun r => r) (fun _ => after) bs H). Qed.
+
 (* Reader::search_substring recurses once per occurrence of the pattern (get_xref_start scans the last 512 + 25 bytes only) *)
 Theorem C04_search_substring_depth_example :
   let buf := EOF5 ++ [x0a] ++ EOF5 ++ [x0a] ++ EOF5 in
@@ -274,3 +306,7 @@ Print Assumptions C04_xref_table_safe.
 Print Assumptions C04_xref_stream_model_safe.
 Print Assumptions C04_load_no_panic_partial.
 Print Assumptions C04_load_terminates_partial.
+Print Assumptions C04_load_enc_no_panic_partial.
+Print Assumptions C04_load_enc_terminates_partial.
+Print Assumptions C04_load_enc_answers.
+Print Assumptions C04_load_enc_is_load_ext.
